@@ -53,6 +53,7 @@ def run_one(spec, prefix, limits=Limits):
     pol = spec.get('alloc_policy')
     if pol == 'none': p.alloc_policy = 'none'
     elif pol: p.alloc_policy = tuple(pol)
+    if spec.get('alloc_fail_above') is not None: p.alloc_fail_above = int(spec['alloc_fail_above'])
     it = Interp(p)
     a, n, syms = make_input(p, spec)
     kind, info = 'ok', ''
